@@ -511,11 +511,13 @@ class MLIRLexer(Lexer[MLIRTokenKind]):
 
         bytes_contents = lit.bytes_contents
 
-        if bytes_contents.isascii():
-            # If the bytes contents are ASCII, return a STRING_LIT
-            return Token(MLIRTokenKind.STRING_LIT, lit)
+        try:
+            bytes_contents.decode("utf-8")
+        except UnicodeDecodeError:
+            return Token(MLIRTokenKind.BYTES_LIT, lit)
 
-        return Token(MLIRTokenKind.BYTES_LIT, lit)
+        # If the bytes contents are valid UTF-8, return a STRING_LIT
+        return Token(MLIRTokenKind.STRING_LIT, lit)
 
     _hexdigits_star_regex = re.compile(r"[0-9a-fA-F]*")
     _digits_star_regex = re.compile(r"[0-9]*")
